@@ -50,7 +50,10 @@ TIMEOUT = 900
 ASSUMPTIONS = ["C11.pivot: random.choice(elements) returns a member of elements (the controlled chooser does)"]
 
 SCHEMES_EXH = [D.GENERIC_A, D.GENERIC_B, D.GENERIC_C, D.unifying(), D.pseudo(), D.induced(), D.extended()]
-KINDS = list(D.NAME_KINDS)
+# local name kinds: the shared ones plus negative integers (-1 is also the placeholder KwikSort starts from)
+NAME_KINDS = dict(D.NAME_KINDS)
+NAME_KINDS["neg"] = lambda n: [i - 1 for i in range(n)]
+KINDS = list(NAME_KINDS)
 PACK = 20
 
 
@@ -360,7 +363,7 @@ def check_case(case):
             u = D.universe_of(d)
             for si, scheme in enumerate(SCHEMES_EXH):
                 kind = KINDS[(si + gi) % len(KINDS)]
-                rk = D.rename(d, D.NAME_KINDS[kind](max(u) + 1))
+                rk = D.rename(d, NAME_KINDS[kind](max(u) + 1))
                 sub = []
                 nr, coh = _eval(rk, scheme, A, G, KwikSortRandom, sub)
                 evals += nr
@@ -381,7 +384,7 @@ def check_case(case):
                     continue
                 m = 1 + (gi + si) % 3
                 kind = KINDS[(si + gi) % len(KINDS)]
-                names = D.NAME_KINDS[kind](n)
+                names = NAME_KINDS[kind](n)
                 rk = D.rename([r] * m, names)
                 exp_r, _ = A.expected_names(rk)
                 sub = []
@@ -395,7 +398,7 @@ def check_case(case):
                 "sample": {"identical copies of": case["rankings"][:2], "schemes": "SCHEMES_ALL with T0>0 and B2>0"}}
     d = case["dataset"]
     u = D.universe_of(d)
-    rk = D.rename(d, D.NAME_KINDS[case["namekind"]](max(u) + 1))
+    rk = D.rename(d, NAME_KINDS[case["namekind"]](max(u) + 1))
     ncoh = 0
     for scheme in D.SCHEMES_ALL:
         sub = []
